@@ -22,9 +22,9 @@ ASSUMPTIONS = [
     "comparisons carry 1e-12 slack; sum of daily degree days within 1e-9 per day",
 ]
 FLOORS = {
-    "quick": {"in_season_days": 15000, "crops_seen": 30, "seasons": 150, "s_restrictive": 20,
+    "quick": {"twin_runs": 1, "envelope_bindings": 1, "in_season_days": 15000, "crops_seen": 30, "seasons": 150, "s_restrictive": 20,
               "d_root_at_table": 50, "s_early_senescence": 15, "s_crop_died": 5, "d_off_season": 1000, "d_hiadj_at_cap": 5},
-    "thorough": {"in_season_days": 150000, "crops_seen": 37, "seasons": 1500, "s_restrictive": 200,
+    "thorough": {"twin_runs": 1, "envelope_bindings": 1, "in_season_days": 150000, "crops_seen": 37, "seasons": 1500, "s_restrictive": 200,
                  "d_root_at_table": 500, "s_early_senescence": 150, "s_crop_died": 50,
                  "d_off_season": 10000, "d_hiadj_at_cap": 50},
 }
